@@ -46,13 +46,13 @@ def mask_for(tok, gridtok):
 UNITS_STR = {"ms": "m s", "kms": "km s", "s2": "s2"}
 
 
-def make_info(i):
+def make_info(i, mask_obj=None):
     meta = {}
     if i["foo"] != "absent":
         meta["foo"] = None if i["foo"] == "none" else i["foo"]
     return fm.Info(time=None if i["time"] == "none" else day(0), grid=GRIDS[i["grid"]],
                    units=None if i["units"] == "none" else UNITS_STR.get(i["units"], i["units"]),
-                   mask=mask_for(i["mask"], i["grid"]), **meta)
+                   mask=mask_for(i["mask"], i["grid"]) if mask_obj is None else mask_obj, **meta)
 
 
 def grid_tok(g):
@@ -119,8 +119,11 @@ def run_case(case):
         inp.ping()
     obs = {"res": "ok", "out": None, "inp": None, "inp2": None}
     try:
-        out.push_info(make_info(case["po"]))
-        inputs[0].exchange_info(make_info(case["ci"]))
+        po_info = make_info(case["po"])
+        out.push_info(po_info)
+        # share: producer and consumer were given the very same mask array object (the token in ci says what
+        # that array means on the consumer's grid)
+        inputs[0].exchange_info(make_info(case["ci"], po_info.mask if case.get("share") else None))
         if case.get("two"):
             inputs[1].exchange_info(make_info(case["c2"]))
     except Exception as e:  # pylint: disable=broad-except
@@ -129,3 +132,24 @@ def run_case(case):
     obs["inp"] = project(inputs[0].info)
     obs["inp2"] = project(inputs[1].info) if case.get("two") else project(None)
     return {"case": case, "obs": obs}
+
+
+FLIPS = {"g": (), "g3": (0,), "g4": (1,), "l": (), "lr": (0,)}
+
+
+def share_cases():
+    """Producer and consumer hold the SAME fixed-mask array object on two layouts of one geometry with equal
+    data shape: the token in ci.mask says which mask that array is when read in the consumer's layout."""
+    cases = []
+    base = {"time": "t", "units": "m", "foo": "absent"}
+    for group, canon in ((("g", "g3", "g4"), {"M": M_CANON, "N": N_CANON}), (("l", "lr"), {"M": M1_CANON, "N": N1_CANON})):
+        for pg in group:
+            for cg in group:
+                for pm in ("M", "N"):
+                    arr = np.flip(canon[pm], FLIPS[pg]) if FLIPS[pg] else canon[pm]        # the array as stored for pg
+                    back = np.flip(arr, FLIPS[cg]) if FLIPS[cg] else arr                    # canonical meaning on cg
+                    tok = next((k for k, v in canon.items() if np.array_equal(back, v)), "X")
+                    for via in ("direct", "pass"):
+                        cases.append({"po": dict(base, grid=pg, mask=pm), "ci": dict(base, grid=cg, mask=tok),
+                                      "c2": dict(base, grid=cg, mask=tok), "via": via, "two": False, "share": True})
+    return cases
